@@ -47,19 +47,44 @@ def run(m: Model, r: Report, tier: str) -> None:
     reads = [n for n in ast.walk(rf.node) if isinstance(n, ast.Call) and isinstance(n.func, ast.Attribute) and n.func.attr.startswith("read")
              and ast.unparse(n.func.value) == "self.reader"]
     args = [ast.unparse(x.args[0]).replace(" ", "") for x in reads if x.args]
-    short_if = [n for n in walk_no_nested(rf.node) if isinstance(n, ast.If) and m.mtext(rf, n.test).replace(" ", "") == f"_L.Len<{rsize}"]
-    ok_short = False
-    if len(short_if) == 1:
-        inner = [n for n in ast.walk(short_if[0]) if isinstance(n, ast.If) and m.mtext(rf, n.test).replace(" ", "") == "_L.Len>0"]
-        ok_short = len(inner) == 1 and any("readexactly(_L.Len)" in m.mtext(rf, s) for s in inner[0].body) and \
-            any(isinstance(s, ast.Return) for s in short_if[0].body)
-    r.check(ok_short, "R2", f"{rf.qualname}#short-frames",
-            f"frames shorter than the {rsize}-byte address header must still be consumed completely (hdr.Len bytes) before returning", loc=rf.loc)
-    dl = [n for n in walk_no_nested(rf.node) if isinstance(n, ast.Assign) and isinstance(n.targets[0], ast.Name)
-          and m.mtext(rf, n.value).replace(" ", "") == f"_L.Len-{rsize}"]
-    long_ok = len(dl) == 1 and f"{rsize}" in args and dl[0].targets[0].id in args
-    r.check(long_ok, "R2", f"{rf.qualname}#long-frames",
-            f"after the {rsize}-byte address header exactly hdr.Len - {rsize} payload bytes must be read (reads: {args})", loc=rf.loc)
+    # consumption, evaluated over the announced length: after the header exactly hdr.Len further bytes are read - the address header first when there is
+    # room for it - and the frame parts are returned (no gallia code runs: the statements of _read_frame are interpreted, reads are recorded)
+    from sa import miniterp as _mtf
+
+    def _consume(length: int):
+        sizes: list[int] = []
+
+        def orc(call, env_):
+            f_ = ast.unparse(call.func)
+            if f_ == "self.reader.readexactly" and len(call.args) == 1:
+                n_ = _mtf.eval_expr(call.args[0], env_, orc)
+                sizes.append(n_)
+                return bytes(n_) if isinstance(n_, int) and n_ >= 0 else NotImplemented
+            if f_.endswith("HSFZHeader.unpack"):
+                return _mtf.Obj(Len=length, CWord=1)
+            if f_.endswith("HSFZDiagReqHeader.unpack"):
+                return _mtf.Obj(src_addr=1, dst_addr=2)
+            return NotImplemented
+        ret_, env_ = _mtf.run_function(rf.node, {}, orc)
+        val_ = _mtf.eval_expr(ret_.value, env_, orc) if ret_ is not None and ret_.value is not None else None
+        return sizes, val_
+    bad_c, unk_c = {"short": [], "long": []}, None
+    try:
+        for L_ in (0, 1, 2, 3, 10):
+            sizes_, val_ = _consume(L_)
+            want_sizes = [hsize, rsize, L_ - rsize] if L_ >= rsize else [hsize] + ([L_] if L_ > 0 else [])
+            shape_ok = isinstance(val_, tuple) and len(val_) == 3 and (val_[1] is None) == (L_ < rsize) and \
+                (val_[2] == bytes(L_ - rsize) if L_ >= rsize else val_[2] in (None, bytes(L_)) and (val_[2] is None) == (L_ == 0))
+            if sizes_ != want_sizes or not shape_ok:
+                bad_c["short" if L_ < rsize else "long"].append(f"Len={L_}: reads {sizes_} (expected {want_sizes}), returns {val_!r}")
+    except (AnalysisError, _mtf.Raised) as ex_:
+        unk_c = str(ex_)
+    r.check3(None if unk_c else not bad_c["short"], "R2", f"{rf.qualname}#short-frames",
+             f"{bad_c['short'][:2]}: frames shorter than the {rsize}-byte address header must still be consumed completely (hdr.Len bytes) before returning", loc=rf.loc,
+             unknown_msg=f"_read_frame is outside the evaluated language: {unk_c}")
+    r.check3(None if unk_c else not bad_c["long"], "R2", f"{rf.qualname}#long-frames",
+             f"{bad_c['long'][:2]}: after the {rsize}-byte address header exactly hdr.Len - {rsize} payload bytes must be read", loc=rf.loc,
+             unknown_msg=f"_read_frame is outside the evaluated language: {unk_c}")
     other_readers = [f.qualname for f in conn.methods.values() if f is not rf and any(
         isinstance(n, ast.Call) and isinstance(n.func, ast.Attribute) and ast.unparse(n.func.value) == "self.reader" and n.func.attr.startswith("read")
         for n in ast.walk(f.node))]
